@@ -587,7 +587,21 @@ fn decompressed(f: &Frame, comp: Option<Compression>) -> Result<Vec<u8>, String>
     match (f.flags & 0x01 != 0, comp) {
         (false, _) => Ok(f.raw_body.clone()),
         (true, None) => Err("compressed frame although no compression was negotiated".into()),
-        (true, Some(c)) => scylla_cql::frame::decompress(&f.raw_body, c).map_err(|e| format!("body does not decompress: {e}")),
+        // reference decoders (not the crate's own frame::decompress, which the `decomp` cases judge separately)
+        (true, Some(Compression::Lz4)) => {
+            if f.raw_body.len() < 4 {
+                return Err("LZ4 body shorter than its length prefix".into());
+            }
+            let n = u32::from_be_bytes([f.raw_body[0], f.raw_body[1], f.raw_body[2], f.raw_body[3]]) as usize;
+            let d = lz4_flex::decompress(&f.raw_body[4..], n).map_err(|e| format!("LZ4 body does not decompress: {e}"))?;
+            if d.len() != n {
+                return Err(format!("LZ4 length prefix {n}, body decompresses to {} bytes", d.len()));
+            }
+            Ok(d)
+        }
+        (true, Some(Compression::Snappy)) => {
+            snap::raw::Decoder::new().decompress_vec(&f.raw_body).map_err(|e| format!("Snappy body does not decompress: {e}"))
+        }
     }
 }
 
